@@ -30,10 +30,12 @@ type c12Case struct {
 	Script   []impl.Answer `json:"script,omitempty"`
 	Bound    int           `json:"bound"`
 	Delay    bool          `json:"delay,omitempty"` // delay bounding (every non-default choice counts) instead of preemption bounding
+	Shard    int           `json:"shard,omitempty"` // this case explores the Shard-th of Shards parts of the schedule tree
+	Shards   int           `json:"shards,omitempty"`
 }
 
 func (c *c12Case) Key() string {
-	return fmt.Sprintf("%s|%q|%q|%v|%d|%v", c.Scenario, c.A, c.B, c.Script, c.Bound, c.Delay)
+	return fmt.Sprintf("%s|%q|%q|%v|%d|%v|%d/%d", c.Scenario, c.A, c.B, c.Script, c.Bound, c.Delay, c.Shard, c.Shards)
 }
 
 // lockedBuf is an output writer that is safe for concurrent use (its lock is visible to the scheduler).
@@ -100,6 +102,39 @@ func c12Body(c *c12Case, results *[2]string) func() {
 			}
 			par(run, second)()
 		}
+	case "unmarshal2":
+		um := func(src string) func() string {
+			return func() string {
+				var t c11Target
+				var out, log bytes.Buffer
+				err := bcl.Unmarshal([]byte(src), &t, bcl.OptOutput(&out), bcl.OptLogger(&log))
+				return fmt.Sprintf("%+v err=%v out=%q log=%q", t, err, out.String(), log.String())
+			}
+		}
+		return par(um(c.A), um(c.B))
+	case "load2":
+		return func() {
+			d, ok := dumpOf(c.A)
+			if !ok {
+				results[0], results[1] = "rejected", "rejected"
+				return
+			}
+			ld := func() string {
+				r, err := impl.LoadExec(d)
+				return fmt.Sprintf("%s loaderr=%v", r.Summary(), err)
+			}
+			par(ld, ld)()
+		}
+	case "dump2":
+		return func() {
+			p := impl.Parse(c.A)
+			if p.Err != nil {
+				results[0], results[1] = "rejected", "rejected"
+				return
+			}
+			dd := func() string { d, err := impl.Dump(p.Prog); return fmt.Sprintf("%x %v", d, err) }
+			par(dd, dd)()
+		}
 	case "bind2":
 		return func() {
 			r := impl.Interpret(c.A)
@@ -157,7 +192,7 @@ func c12Exec(cs fw.Case) *fw.Fail {
 	total := 0
 	var steps int64
 	for b := 0; b <= c.Bound; b++ {
-		x := &vsched.Explorer{Bound: b, Delay: c.Delay, Opt: vsched.Options{Races: true}, Body: body, Check: check, Stop: func() bool { fw.Heartbeat(); return fw.Cur != nil && fw.Cur.Expired() }, MaxExec: maxExecPerCase()}
+		x := &vsched.Explorer{Bound: b, Delay: c.Delay, RootShard: c.Shard, RootShards: c.Shards, Opt: vsched.Options{Races: true}, Body: body, Check: check, Stop: func() bool { fw.Heartbeat(); return fw.Cur != nil && fw.Cur.Expired() }, MaxExec: maxExecPerCase()}
 		x.Explore()
 		total = x.Executions
 		steps = x.Steps + int64(x.Executions)
@@ -190,6 +225,18 @@ func c12Exec(cs fw.Case) *fw.Fail {
 var subC12 = &fw.Sub{Name: "c12.races", New: func() fw.Case { return &c12Case{} }, Exec: func(cs fw.Case) *fw.Fail {
 	return fw.Guard(func() *fw.Fail { return c12Exec(cs) })
 }}
+
+// c12Splitter deals every scenario's schedule tree over 8 cases so that the workers share it.
+type c12Splitter struct{ *fw.Ctx }
+
+func (s *c12Splitter) Do(sub *fw.Sub, cs *c12Case) {
+	const parts = 8
+	for k := 0; k < parts; k++ {
+		cc := *cs
+		cc.Shard, cc.Shards = k, parts
+		s.Ctx.Do(sub, &cc)
+	}
+}
 
 var raceFrameRe = regexp.MustCompile(`github\.com/wkhere/bcl[./(]`)
 
@@ -243,14 +290,15 @@ func init() {
 		ID:    "C12",
 		Level: "model_checking",
 		Rule: "controlled-scheduler exploration with a happens-before race detector: the package is rewritten so that every access to a package-level variable, to an addressable field of a struct type of package bcl and to a captured local is logged; vector clocks advance only on the program's own synchronisation (channel send->receive, close->receive, go->start, unlock->lock, WaitGroup), not on scheduler hand-offs. " +
-			"Harness bodies: (a) the ParseFile pipeline on multi-chunk inputs whose first chunk has syntax errors while later chunks hold newlines (parser formats diagnostics while the lexer appends line ends), valid multi-chunk input, early lexical failure; (b) two concurrent callers: Parse||Parse, ParseFile||ParseFile, Interpret||Interpret on different inputs, Execute||Execute and Execute||Dump on one shared Prog with a locked output writer, Bind||Bind. " +
+			"Harness bodies: (a) the ParseFile pipeline on multi-chunk inputs whose first chunk has syntax errors while later chunks hold newlines (parser formats diagnostics while the lexer appends line ends), valid multi-chunk input, early lexical failure; (b) two concurrent callers: Parse||Parse, ParseFile||ParseFile, Interpret||Interpret on different inputs, Unmarshal||Unmarshal, Execute||Execute, Execute||Dump and Dump||Dump on one shared Prog with a locked output writer, LoadProg+Execute pairs, Bind||Bind. " +
 			"ALL schedules with <=B preemptions (quick 1, thorough 2; Execute pairs B+1) are executed for the pipeline and the Execute/Dump/Bind pairs; the Parse/ParseFile/Interpret pairs (7-9 goroutines) use delay bounding: a deterministic scheduler plus every placement of <=B+1 deviations; on each: no unordered conflicting access pair, no deadlock/panic, and each call's result equals its sequential result.",
 		Subs:           []*fw.Sub{subC12},
 		BudgetQuick:    100,
 		BudgetThorough: 1500,
 		Assumptions: []string{"a race is reported only if both accesses are instrumented (fields of bcl structs, package variables, captured locals; element accesses count as accesses of their holder); the supplementary free-running race-detector pass covers the rest by sampling",
 			"memory orderings weaker than happens-before are not modelled"},
-		Run: func(c *fw.Ctx) {
+		Run: func(c0 *fw.Ctx) {
+			c := &c12Splitter{c0}
 			bound := 1
 			if c.Thorough() {
 				bound = 2
@@ -282,6 +330,9 @@ func init() {
 				c.Do(subC12, &c12Case{Scenario: "exec2", A: src, Bound: bound + 1})
 				c.Do(subC12, &c12Case{Scenario: "execdump", A: src, Bound: bound + 1})
 			}
+			c.Do(subC12, &c12Case{Scenario: "unmarshal2", A: "def c11target \"nm\" { x = 3 }\nbind c11target -> struct", B: "def c11target { x = 4; y = 5 }\nprint 1\nbind c11target -> struct", Bound: bound + 1, Delay: true})
+			c.Do(subC12, &c12Case{Scenario: "load2", A: "var a = 1\nprint a + 1\ndef b \"n\" { x = a }\nbind b -> struct", Bound: bound + 1})
+			c.Do(subC12, &c12Case{Scenario: "dump2", A: "var a = 1\nprint a + 1\ndef b \"n\" { x = a }\nbind b -> struct", Bound: bound + 1})
 			c.Do(subC12, &c12Case{Scenario: "bind2", A: "def c11target \"nm\" { x = 3 }\nbind c11target -> struct", Bound: bound})
 			c.Bound("preemption_bound", bound)
 		},
